@@ -206,7 +206,7 @@ pub fn run(r: &Report) {
         ),
         Tier::Thorough => (
             AstParams {
-                max_lines: 8,
+                max_lines: 6,
                 max_depth: 3,
                 block_kinds: vec![Kind::Expired, Kind::Later, Kind::Future, Kind::Targeted, Kind::Untargeted],
                 inline_kinds: vec![Kind::Expired, Kind::Later],
